@@ -12,8 +12,8 @@ SAMPLE_MAX = 60      # longest trace shown as a sample in the evidence
 
 
 # ---------------------------------------------------------------------------------- cases
-def mkcase(cid, kind, progs, source, cap=1, count=1, spur=0, thr="spawn", tag=""):
-    hdr = "kind=%s cap=%d count=%d thr=%s spur=%d sched=%s" % (kind, cap, count, thr, spur, source)
+def mkcase(cid, kind, progs, source, cap=1, count=1, spur=0, thr="spawn", pre=0, tag=""):
+    hdr = "kind=%s cap=%d count=%d thr=%s spur=%d pre=%d sched=%s" % (kind, cap, count, thr, spur, pre, source)
     ops = [" ; ".join(p) if p else "-" for p in progs]
     return vlib.Case(cid, hdr, ops, tag)
 
@@ -75,6 +75,15 @@ def oracle(case, run):
                 return "size() returned %s with %d put and %d taken" % (res, len(puts), len(returned))
             if kind == "bbq" and int(res) > cap:
                 return "size() returned %s > capacity %d" % (res, cap)
+        elif op == "empty":
+            if (int(res) == 1) != (len(puts) - len(returned) == 0):
+                return "empty() returned %s with %d elements queued" % (res, len(puts) - len(returned))
+        elif op == "full":
+            if (int(res) == 1) != (len(puts) - len(returned) == cap):
+                return "full() returned %s with %d elements queued, capacity %d" % (res, len(puts) - len(returned), cap)
+        elif op == "capacity":
+            if int(res) != cap:
+                return "capacity() returned %s, constructed with %d" % (res, cap)
         elif op == "cd":
             ncd += 1
         elif op == "wait":
@@ -178,30 +187,34 @@ def oracle(case, run):
 
 # ---------------------------------------------------------------------------------- generators
 def small_configs(tier):
-    """(name, kind, cap, count, spur, thr, progs) explored systematically."""
+    """(name, kind, cap, count, spur, thr, progs, pre) explored systematically; pre = extra park before the
+    named wrapped calls (`wait`: between the while-test under the mutex and the parking in pthread_cond_wait)."""
     P, T, D, S = (lambda v: "put %d" % v), "take", "drain", "size"
     cfgs = [
-        ("bq_1p1c", "bq", 1, 1, 1, "spawn", [[P(101), P(102)], [T, T]]),
-        ("bq_2p2c", "bq", 1, 1, 1, "spawn", [[P(101)], [P(201)], [T], [T]]),
-        ("bq_1p2c", "bq", 1, 1, 0, "spawn", [[P(101), P(102)], [T], [T]]),
-        ("bq_2p1c", "bq", 1, 1, 1, "spawn", [[P(101)], [P(201), P(202)], [T, T, T]]),
-        ("bq_drain", "bq", 1, 1, 0, "spawn", [[P(101), P(102)], [T], [D, S]]),
-        ("bbq1_1p1c", "bbq", 1, 1, 1, "spawn", [[P(101), P(102)], [T, T]]),
-        ("bbq1_2p2c", "bbq", 1, 1, 0, "spawn", [[P(101)], [P(201)], [T], [T]]),
-        ("bbq1_2p1c", "bbq", 1, 1, 1, "spawn", [[P(101), P(102)], [P(201)], [T, T, T]]),
-        ("bbq2_1p2c", "bbq", 2, 1, 0, "spawn", [[P(101), P(102), P(103)], [T, S], [T, T]]),
+        ("bq_1p1c", "bq", 1, 1, 1, "spawn", [[P(101), P(102)], [T, T]], 0),
+        ("bq_2p2c", "bq", 1, 1, 1, "spawn", [[P(101)], [P(201)], [T], [T]], 0),
+        ("bq_1p2c", "bq", 1, 1, 0, "spawn", [[P(101), P(102)], [T], [T]], 0),
+        ("bq_2p1c", "bq", 1, 1, 1, "spawn", [[P(101)], [P(201), P(202)], [T, T, T]], 0),
+        ("bq_drain", "bq", 1, 1, 0, "spawn", [[P(101), P(102)], [T], [D, S]], 0),
+        ("bbq1_1p1c", "bbq", 1, 1, 1, "spawn", [[P(101), P(102)], [T, T]], 0),
+        ("bbq1_2p2c", "bbq", 1, 1, 0, "spawn", [[P(101)], [P(201)], [T], [T]], 0),
+        ("bbq1_2p1c", "bbq", 1, 1, 1, "spawn", [[P(101), P(102)], [P(201)], [T, T, T]], 0),
+        ("bbq2_1p2c", "bbq", 2, 1, 0, "spawn", [[P(101), P(102), P(103)], [T, S], [T, T]], 0),
         # two producers parked on a full queue, two takes in a row: one notification per take is needed
-        ("bbq2_2p_tt", "bbq", 2, 1, 0, "spawn", [[P(101), P(102), P(103)], [P(201)], [T, T]]),
-        ("latch1_2w", "latch", 1, 1, 1, "spawn", [["wait"], ["wait"], ["cd"]]),
-        ("latch2_2w", "latch", 1, 2, 0, "spawn", [["cd", "wait"], ["wait", "count"], ["cd"]]),
-        ("latch1_muduo", "latch", 1, 1, 0, "muduo", [["wait"], ["cd", "count"]]),
+        ("bbq2_2p_tt", "bbq", 2, 1, 0, "spawn", [[P(101), P(102), P(103)], [P(201)], [T, T]], 0),
+        ("bbq1_obs", "bbq", 1, 1, 0, "spawn", [[P(101), "full", P(102)], [T, "empty", T, "capacity", S]], 0),
+        ("bq_prewait", "bq", 1, 1, 0, "spawn", [[P(101)], [T], [T, S]], schedlib.mask("wait")),
+        ("latch1_prewait", "latch", 1, 1, 0, "spawn", [["wait"], ["wait"], ["cd"]], schedlib.mask("wait")),
+        ("latch1_2w", "latch", 1, 1, 1, "spawn", [["wait"], ["wait"], ["cd"]], 0),
+        ("latch2_2w", "latch", 1, 2, 0, "spawn", [["cd", "wait"], ["wait", "count"], ["cd"]], 0),
+        ("latch1_muduo", "latch", 1, 1, 0, "muduo", [["wait"], ["cd", "count"]], 0),
     ]
     if tier != "quick":
         cfgs += [
-            ("bq_2p2c_b", "bq", 1, 1, 2, "spawn", [[P(101), P(102)], [P(201)], [T, T], [T]]),
-            ("bbq2_2p2c", "bbq", 2, 1, 1, "spawn", [[P(101), P(102)], [P(201), P(202)], [T, T], [T, T]]),
-            ("bbq1_muduo", "bbq", 1, 1, 0, "muduo", [[P(101), P(102)], [T, T]]),
-            ("latch2_3w", "latch", 1, 2, 1, "spawn", [["wait"], ["wait", "count"], ["cd", "wait"], ["cd"]]),
+            ("bq_2p2c_b", "bq", 1, 1, 2, "spawn", [[P(101), P(102)], [P(201)], [T, T], [T]], 0),
+            ("bbq2_2p2c", "bbq", 2, 1, 1, "spawn", [[P(101), P(102)], [P(201), P(202)], [T, T], [T, T]], 0),
+            ("bbq1_muduo", "bbq", 1, 1, 0, "muduo", [[P(101), P(102)], [T, T]], 0),
+            ("latch2_3w", "latch", 1, 2, 1, "spawn", [["wait"], ["wait", "count"], ["cd", "wait"], ["cd"]], 0),
         ]
     return cfgs
 
@@ -211,6 +224,7 @@ def gen_random_case(rng, cid):
     spur = rng.choice([0, 0, 1, 2, 3])
     thr = "muduo" if rng.random() < 0.1 else "spawn"
     src = schedlib.random_source(rng)
+    pre = rng.choice([0, 0, 0, schedlib.mask("wait")])
     if kind == "latch":
         count = rng.randint(0, 3)
         nthr = rng.randint(2, 5)
@@ -223,7 +237,7 @@ def gen_random_case(rng, cid):
         for p in progs:
             rng.shuffle(p)
         progs = [p[:10] for p in progs]
-        return mkcase(cid, kind, progs, src, count=count, spur=spur, thr=thr, tag="random")
+        return mkcase(cid, kind, progs, src, count=count, spur=spur, thr=thr, pre=pre, tag="random")
     nprod, ncons = rng.randint(1, 4), rng.randint(1, 4)
     cap = rng.randint(1, 3)
     total = rng.randint(1, 12)
@@ -239,7 +253,7 @@ def gen_random_case(rng, cid):
         c = rng.randrange(ncons)
         if len(cons[c]) < 10:
             cons[c].append("take")
-    extra = ["size"] + (["drain"] if kind == "bq" else [])
+    extra = ["size"] + (["drain", "drain"] if kind == "bq" else ["empty", "full", "capacity"])
     for _ in range(rng.choice([0, 0, 1, 2])):
         lst = rng.choice(prods + cons)
         if len(lst) < 10:
@@ -256,7 +270,7 @@ def gen_random_case(rng, cid):
                 k += 1
                 cons[0][i] = "put %d" % (9000 + k)
     progs = prods + cons
-    return mkcase(cid, kind, progs, src, cap=cap, spur=spur, thr=thr, tag="random")
+    return mkcase(cid, kind, progs, src, cap=cap, spur=spur, thr=thr, pre=pre, tag="random")
 
 
 # ---------------------------------------------------------------------------------- running
@@ -386,7 +400,7 @@ def run(chk, replay=None):
         counter = 0
         while any(e.active() for e in enums.values()) and nbad[0] < ENOUGH:
             cases, owners = [], []
-            for (name, kind, cap, count, spur, thr, progs) in cfgs:
+            for (name, kind, cap, count, spur, thr, progs, pre) in cfgs:
                 e = enums[name]
                 if not e.active():
                     continue
@@ -395,13 +409,13 @@ def run(chk, replay=None):
                 for (p, _) in b:
                     counter += 1
                     cs.append(mkcase("%s_%d" % (name, counter), kind, progs, schedlib.list_source(p),
-                                     cap=cap, count=count, spur=spur, thr=thr, tag="systematic"))
+                                     cap=cap, count=count, spur=spur, thr=thr, pre=pre, tag="systematic"))
                 cases += cs
                 owners.append((e, b, cs))
             runs = run_and_absorb(cases)
             for (e, b, cs) in owners:
                 e.feed(b, [runs[c.cid] for c in cs])
-        for (name, kind, cap, count, spur, thr, progs) in cfgs:
+        for (name, kind, cap, count, spur, thr, progs, pre) in cfgs:
             e = enums[name]
             stats["systematic_runs"] += e.nruns
             stats["configs"][name] = {"runs": e.nruns, "exhaustive_within_bound": e.exhaustive(), "preemption_bound": bound,
